@@ -31,7 +31,7 @@ Reg(h, j, k, m) ==
        THEN /\ last' = [op |-> "Reg", h |-> h, reply |-> "reconnect"] /\ UNCHANGED <<sess, sent>>
        ELSE IF h # j
        THEN /\ last' = [op |-> "Reg", h |-> h, reply |-> "404"] /\ UNCHANGED <<sess, sent>>
-       ELSE /\ sess' = Append(sess, [id |-> h, key |-> k, meta |-> m])
+       ELSE /\ sess' = Append(sess, [id |-> h, key |-> k, meta |-> m, active |-> TRUE])
             /\ sent' = [sent EXCEPT ![h] = [key |-> k, meta |-> m]]
             /\ last' = [op |-> "Reg", h |-> h, reply |-> "registered"]
     /\ Log("Reg", h, j, k, m)
@@ -46,16 +46,25 @@ CheckIn(h) ==
 Refresh(h, j, k, m) ==
     /\ h # Zero /\ Has(h)
     /\ IF j = h
-       THEN /\ sess' = [n \in 1..Len(sess) |-> IF sess[n].id = h THEN [id |-> h, key |-> k, meta |-> m] ELSE sess[n]]
+       THEN /\ sess' = [n \in 1..Len(sess) |-> IF sess[n].id = h THEN [id |-> h, key |-> k, meta |-> m, active |-> TRUE] ELSE sess[n]]
             /\ sent' = [sent EXCEPT ![h] = [key |-> k, meta |-> m]]
        ELSE UNCHANGED <<sess, sent>>
     /\ last' = [op |-> "Refresh", h |-> h, reply |-> "nojob"]
     /\ Log("Refresh", h, j, k, m)
 
+(* the session dies (operator mark or exit callback): it stays in the table, inactive, and its id stays taken *)
+Kill(h, how) ==
+    /\ h # Zero /\ Has(h)
+    /\ sess' = [n \in 1..Len(sess) |-> IF sess[n].id = h THEN [sess[n] EXCEPT !.active = FALSE] ELSE sess[n]]
+    /\ UNCHANGED sent
+    /\ last' = [op |-> "Kill", h |-> h, reply |-> "nojob"]
+    /\ Log("Kill", h, "", how, "")
+
 Next == /\ Len(hist) < MaxOps
         /\ \/ \E h \in Ids \cup {Zero}, j \in Ids, k \in Keys, m \in Metas : Reg(h, j, k, m)
            \/ \E h \in Ids \cup {Zero} : CheckIn(h)
            \/ \E h \in Ids, j \in Ids, k \in Keys, m \in Metas : Refresh(h, j, k, m)
+           \/ \E h \in Ids, how \in {"mark", "exit"} : Kill(h, how)
 Spec == Init /\ [][Next]_vars
 -----------------------------------------------------------------------------
 (* C03, session clauses *)
